@@ -18,6 +18,14 @@ fn run_obs(prog: &CaoCompiledProgram) -> String {
     show_outcome(&vm, prog, &res)
 }
 
+/// lookups of names that are NOT in the (deserialized) tables terminate and find nothing (a hang
+/// is caught by the worker watchdog)
+fn absent_lookups(prog: &CaoCompiledProgram) -> bool {
+    let names = ["__absent__", "nosuchvar", "g", "zz9"];
+    let declared: Vec<String> = prog.variables.names.iter().map(|(_, n)| n.to_string()).collect();
+    names.iter().filter(|n| !declared.iter().any(|d| d == *n)).all(|n| prog.variable_id(n).is_none())
+}
+
 impl Engine for SerEngine {
     fn name(&self) -> &'static str {
         "ser"
@@ -27,8 +35,10 @@ impl Engine for SerEngine {
             0 => {
                 let size = if tier == Tier::Quick { rng.range(1, 5) } else { rng.range(1, 9) } as usize;
                 let m = if idx % 9 == 0 {
-                    // no globals / no functions besides main: tiny label and variable tables
-                    cao_lang::compiler::Module { submodules: vec![], functions: vec![("main".into(), cao_lang::compiler::Function::default())], imports: vec![] }
+                    // 0-3 globals / no functions besides main: tiny label and variable tables
+                    let k = rng.range(0, 4);
+                    let cards = (0..k).map(|i| cao_lang::compiler::Card::set_global_var(format!("tiny{i}"), crate::progs::int(i))).collect();
+                    cao_lang::compiler::Module { submodules: vec![], functions: vec![("main".into(), cao_lang::compiler::Function { arguments: vec![], cards })], imports: vec![] }
                 } else {
                     let ws = rng.chance(1, 2);
                     gen_program(rng, &GenOpts { size, with_submodules: ws })
@@ -60,6 +70,10 @@ impl Engine for SerEngine {
                     }
                 }
                 v = clean(&v);
+                if rng.chance(1, 4) {
+                    let sub = match &v { OV::Table(_) => v.clone(), _ => OV::Table(vec![(OV::Int(1), v.clone())]) };
+                    return vec![format!("ser shared {}", sub.tok())];
+                }
                 vec![format!("ser value {}", v.tok())]
             }
         }
@@ -99,22 +113,49 @@ impl Engine for SerEngine {
                                 let s = serde_json::to_string(&prog).unwrap();
                                 let back: CaoCompiledProgram = serde_json::from_str(&s).unwrap();
                                 parts.push(format!("json={}", if show_program(&back) == base { "same" } else { "diff" }));
-                                runs_same &= run_obs(&back) == base_run;
+                                runs_same &= run_obs(&back) == base_run && absent_lookups(&back);
                             }
                             {
                                 let mut buf = vec![];
                                 ciborium::ser::into_writer(&prog, &mut buf).unwrap();
                                 let back: CaoCompiledProgram = ciborium::de::from_reader(buf.as_slice()).unwrap();
                                 parts.push(format!("cbor={}", if show_program(&back) == base { "same" } else { "diff" }));
-                                runs_same &= run_obs(&back) == base_run;
+                                runs_same &= run_obs(&back) == base_run && absent_lookups(&back);
                             }
                             {
                                 let buf = bincode::serde::encode_to_vec(&prog, bincode::config::standard()).unwrap();
                                 let (back, _): (CaoCompiledProgram, usize) = bincode::serde::decode_from_slice(&buf, bincode::config::standard()).unwrap();
                                 parts.push(format!("bincode={}", if show_program(&back) == base { "same" } else { "diff" }));
-                                runs_same &= run_obs(&back) == base_run;
+                                runs_same &= run_obs(&back) == base_run && absent_lookups(&back);
                             }
                             format!("{} run={}", parts.join(" "), if runs_same { "same" } else { "diff" })
+                        }
+                    }
+                }
+                // one sub-table object referenced twice (no cycle): owning, serializing and re-inserting
+                // must succeed and give two deeply equal entries
+                ["ser", "shared", v] => {
+                    let ov = OV::parse(v).unwrap();
+                    let mut vm_a = new_vm(409600, 256, 256);
+                    let sub = build(&mut vm_a, &ov).unwrap();
+                    let outer = vm_a.init_table().unwrap().into_inner();
+                    vm_a.stack_push(Value::Object(outer)).unwrap();
+                    let ka = Value::Integer(0);
+                    let kb = Value::Object(vm_a.init_string("b").unwrap().into_inner());
+                    unsafe {
+                        (*outer.as_ptr()).as_table_mut().unwrap().insert(ka, sub).unwrap();
+                        (*outer.as_ptr()).as_table_mut().unwrap().insert(kb, sub).unwrap();
+                    }
+                    let expect = format!("t[i0:{},s62:{}]", ov.tok(), ov.tok());
+                    match OwnedValue::try_from(Value::Object(outer)) {
+                        Err(_) => "not-ownable".to_string(),
+                        Ok(owned) => {
+                            let js = serde_json::to_string(&owned).unwrap();
+                            let back: OwnedValue = serde_json::from_str(&js).unwrap();
+                            let mut vm_b = new_vm(409600, 256, 256);
+                            let v2 = vm_b.insert_value(&back).unwrap();
+                            let t2 = read_back(v2, 12).tok();
+                            if t2 == expect { "same".into() } else { format!("diff {t2}") }
                         }
                     }
                 }
